@@ -36,6 +36,8 @@ fn parse_req(req: &str) -> (String, Vec<String>) {
 }
 
 fn gen_str(rng: &mut Rng, max: usize) -> String {
+    // one string in forty is long (thresholds and buffers inside searchers / splitters)
+    let max = if rng.chance(1, 40) { max * 30 + 40 } else { max };
     let n = rng.below(max + 1);
     (0..n).map(|_| *rng.pick(&ALPHA)).collect()
 }
